@@ -377,6 +377,45 @@ def _repeatable(ctx, stop, fin):
                "the early returns ('never allocated', 'already freed') "
                'precede every removal',
                construct='early return [%s]' % K.controlling(node, graph))
+    # the fact the 'already freed' return tests is established last: the
+    # network resource is released only after every removal, so a finish
+    # that failed half-way is repeated in full
+    getters = [c for _n, c in K.nodes_calling(
+        graph, lambda c: K.is_meth(c, 'get') and
+        K.recv_text(c) in stop.params())]
+    ctx.require(getters, 'lookup of the network resource')
+    client = K.recv_text(getters[0])
+    releases = [n for n, c in K.nodes_calling(
+        graph, lambda c: K.is_meth(c, 'delete') and
+        K.recv_text(c) == client)]
+    ctx.ob('C16.3', stop, releases[0] if releases else None,
+           bool(releases),
+           'the network resource is released (%s.delete)' % client,
+           construct='release of the network resource')
+    for rel in releases:
+        after = [n for n in C.reach_after(rel, edge_ok=C.no_exc)
+                 if n in removal_nodes]
+        ctx.ob('C16.3', stop, after[0] if after else rel, not after,
+               'the network resource is released after every removal '
+               '(a repeated finish returns early once it is gone)',
+               construct='release is the last step')
+    # removing the specs of one container: a spec of another owner is
+    # skipped, the scan goes on
+    epm = ctx.index.get_class('treadmill.endpoints', 'EndpointsMgr')
+    ua = epm.methods.get('unlink_all')
+    ctx.require(ua is not None, 'EndpointsMgr.unlink_all')
+    ugraph = ctx.cfg(ua)
+    loops = [n for n in ugraph.nodes if n.kind == 'for']
+    ctx.require(loops, 'scan loop of unlink_all')
+    for loop in loops:
+        leaves = [e for e in K.loop_exit_edges(loop)
+                  if e.kind != 'exc' and e.src is not loop and
+                  e.src.kind != 'raise']
+        ctx.ob('C16.3', ua, leaves[0].src if leaves else loop, not leaves,
+               'the scan over matching specs is left only when exhausted or '
+               'by an error: a spec owned by another container does not '
+               'stop the removal of the remaining ones',
+               construct='unlink_all scans every match')
     bad = []
     for func in (stop, fin.functions.get('_cleanup_ephemeral_ports')):
         if func is None:
